@@ -145,16 +145,9 @@ func findOrderSites(fn *ssa.Function) []*orderSite {
 				if f == nil || f.String() != "(reflect.Value).MapKeys" {
 					continue
 				}
-				// loops that index the keys slice
-				refs := x.Referrers()
-				if refs == nil {
-					continue
-				}
-				for _, r := range *refs {
-					ia, ok := r.(*ssa.IndexAddr)
-					if !ok {
-						continue
-					}
+				// loops that index the keys slice - directly, or through a variable that holds it
+				// on some paths only (phi), a reslice or a conversion
+				for _, ia := range indexUsesOf(x) {
 					// innermost loop containing the index expression
 					var head *ssa.BasicBlock
 					for h, body := range loops {
@@ -164,7 +157,7 @@ func findOrderSites(fn *ssa.Function) []*orderSite {
 							}
 						}
 					}
-					if head == nil || sortedBefore(x, head) {
+					if head == nil || sortedBefore(x, head) || sortedBefore(ia.X, head) {
 						continue
 					}
 					s := &orderSite{fn: fn, head: head, body: loops[head.Index], at: x, kind: "mapkeys", mapV: x, iter: []ssa.Value{ia}}
@@ -182,6 +175,163 @@ func findOrderSites(fn *ssa.Function) []*orderSite {
 		}
 	}
 	return sites
+}
+
+// indexUsesOf: the index expressions over v or over a value v flows into unchanged (phi, reslice,
+// type change).
+func indexUsesOf(v ssa.Value) []*ssa.IndexAddr {
+	var out []*ssa.IndexAddr
+	seen := map[ssa.Value]bool{}
+	var walk func(ssa.Value)
+	walk = func(x ssa.Value) {
+		if seen[x] {
+			return
+		}
+		seen[x] = true
+		refs := x.Referrers()
+		if refs == nil {
+			return
+		}
+		for _, r := range *refs {
+			switch y := r.(type) {
+			case *ssa.IndexAddr:
+				if y.X == x {
+					out = append(out, y)
+				}
+			case *ssa.Phi:
+				walk(y)
+			case *ssa.Slice:
+				if y.X == x {
+					walk(y)
+				}
+			case *ssa.ChangeType:
+				walk(y)
+			}
+		}
+	}
+	walk(v)
+	return out
+}
+
+// escapesOf: the instructions through which v (or a phi/reslice/conversion/local variable copy of
+// it) is returned, stored, or passed to a callee that is not package sort or len/cap, before any
+// value of that flow has been handed to package sort.
+func escapesOf(v ssa.Value) []ssa.Instruction {
+	var cand []ssa.Instruction
+	var sorts []ssa.Instruction
+	seen := map[ssa.Value]bool{}
+	var walk func(ssa.Value)
+	onlySortUses := func(c ssa.Value) bool {
+		refs := c.Referrers()
+		if refs == nil {
+			return true
+		}
+		for _, r := range *refs {
+			if _, dbg := r.(*ssa.DebugRef); dbg {
+				continue
+			}
+			ci, ok := r.(ssa.CallInstruction)
+			if !ok || !isSortCall(ci.Common()) {
+				return false
+			}
+		}
+		return true
+	}
+	walk = func(x ssa.Value) {
+		if seen[x] {
+			return
+		}
+		seen[x] = true
+		refs := x.Referrers()
+		if refs == nil {
+			return
+		}
+		for _, r := range *refs {
+			switch y := r.(type) {
+			case *ssa.Phi:
+				walk(y)
+			case *ssa.Slice:
+				if y.X == x {
+					walk(y)
+				}
+			case *ssa.ChangeType:
+				walk(y)
+			case *ssa.MakeInterface:
+				walk(y)
+			case *ssa.Return:
+				cand = append(cand, y)
+			case *ssa.Store:
+				if y.Val != x {
+					continue
+				}
+				if al, ok := y.Addr.(*ssa.Alloc); ok {
+					// a local variable (possibly captured by a comparison closure): follow its loads
+					if rr := al.Referrers(); rr != nil {
+						for _, r2 := range *rr {
+							switch z := r2.(type) {
+							case *ssa.UnOp:
+								if z.Op == token.MUL {
+									walk(z)
+								}
+							case *ssa.MakeClosure:
+								if !onlySortUses(z) {
+									cand = append(cand, z)
+								}
+							}
+						}
+					}
+					continue
+				}
+				cand = append(cand, y)
+			case *ssa.MapUpdate:
+				if y.Value == x || y.Key == x {
+					cand = append(cand, y)
+				}
+			case *ssa.MakeClosure:
+				if !onlySortUses(y) {
+					cand = append(cand, y)
+				}
+			case ssa.CallInstruction:
+				c := y.Common()
+				if b, ok := c.Value.(*ssa.Builtin); ok && (b.Name() == "len" || b.Name() == "cap") {
+					continue
+				}
+				if isSortCall(c) {
+					sorts = append(sorts, y)
+					continue
+				}
+				cand = append(cand, y)
+			}
+		}
+	}
+	walk(v)
+	before := func(a, b ssa.Instruction) bool { // a is executed before b on every path to b
+		if a.Block() != b.Block() {
+			return a.Block().Dominates(b.Block())
+		}
+		for _, in := range a.Block().Instrs {
+			if in == a {
+				return true
+			}
+			if in == b {
+				return false
+			}
+		}
+		return false
+	}
+	var out []ssa.Instruction
+	for _, c := range cand {
+		sorted := false
+		for _, s := range sorts {
+			if before(s, c) {
+				sorted = true
+			}
+		}
+		if !sorted {
+			out = append(out, c)
+		}
+	}
+	return out
 }
 
 // dependsOn: v is computed from one of the roots (data dependence through pure instructions and
@@ -518,6 +668,43 @@ func mapOrderFamily(w *World, prop string) ([]*Obligation, []string) {
 			}
 		}
 	}
+	// The unsorted result of MapKeys must not leave the function (returned, stored, or handed to a
+	// callee other than package sort): whoever walks it then does so in Go's map order, out of sight
+	// of the loop analysis above.
+	nesc := 0
+	for _, name := range sortedKeys(w.Funcs) {
+		fn := w.Funcs[name]
+		if exempt[name] != "" || len(fn.Blocks) == 0 {
+			continue
+		}
+		k := 0
+		for _, b := range fn.Blocks {
+			for _, in := range b.Instrs {
+				call, ok := in.(*ssa.Call)
+				if !ok {
+					continue
+				}
+				if f := call.Call.StaticCallee(); f == nil || f.String() != "(reflect.Value).MapKeys" {
+					continue
+				}
+				escs := escapesOf(call)
+				if len(escs) == 0 {
+					k++
+					pos, src := w.posAndSrc(call)
+					out = append(out, &Obligation{Name: fmt.Sprintf("%s/maporder-escape#%d", name, k), Kind: "maporder", Func: name, Pos: pos, Src: src, PC: "true", Goal: "stays local", Props: []string{"C03"},
+						Comment: "the result of reflect.Value.MapKeys is only indexed, measured or sorted here before it goes anywhere else", Custom: "(set-logic ALL)(assert false)"})
+				}
+				for _, esc := range escs {
+					k++
+					nesc++
+					pos, src := w.posAndSrc(esc)
+					out = append(out, &Obligation{Name: fmt.Sprintf("%s/maporder-escape#%d", name, k), Kind: "maporder", Func: name, Pos: pos, Src: src, PC: "true", Goal: "stays local", Props: []string{"C03"},
+						Comment: "the unsorted result of reflect.Value.MapKeys leaves the function through `" + esc.String() + "` (returned, stored or passed on): its order is Go's map order", Custom: "(set-logic ALL)(assert true)"})
+				}
+			}
+		}
+	}
+	_ = nesc
 	// A slice taken from a map (reflect MapKeys, or filled in a map range loop) and then sorted is in
 	// an order that depends only on the map's contents only if the comparison cannot tie two different
 	// entries: it has to compare an injective key of the two elements. sort.Strings/Ints/Float64s
